@@ -4,10 +4,11 @@ from common import *
 import expr as X
 import evalcheck
 import c01, c05, c09, c04
+import c08pos
 from c12 import canon
 
 PROP = "C08"
-PROP_FILES = ["Properties/C08.v", "Check/EvalCheck.v"]
+PROP_FILES = ["Properties/C08.v", "Check/EvalCheck.v", "Check/C08Check.v"]
 N = X.num
 
 KIDS = {  # positions of sub-expressions per node kind
@@ -323,7 +324,7 @@ def main(tier, seed, replay=None):
     pairs = []
     if replay:
         rp = json.load(open(replay))
-        pairs = [(rp["case"]["kind"], rp["case"]["original"], rp["case"]["rewritten"], None, None)]
+        pairs = [] if rp["case"].get("stream") in ("position", "substitution") else [(rp["case"]["kind"], rp["case"]["original"], rp["case"]["rewritten"], None, None)]
     else:
         for e in base_programs(rng, tier):
             for _ in range(2):
@@ -375,8 +376,88 @@ def main(tier, seed, replay=None):
     mcases = [{"id": i, "label": p[0], "ast": p[4]} for i, p in enumerate(pairs) if p[4] is not None][:(250 if tier == "quick" else 3000)]
     mouts, mcodes, mfails = evalcheck.evaluate(vh, mcases) if mcases else ({}, {}, [])
     evalcheck.judge(run, mcases, mouts, mcodes, mfails, "rewritten program vs the reference semantics", value_codes=(1, 2, 3), corr_codes=(4, 5, 6), skip_regions=True)
+    # ---- rewriting at a position inside a larger program, and substitution of a let-bound name (gen/c08pos.py) ----
+    pcases = []
+    if not replay:
+        prng = random.Random(rng.randrange(1 << 30))
+        pcases = c08pos.position_cases(prng, 100 if tier == "quick" else 2500) + c08pos.subst_cases(prng, 100 if tier == "quick" else 2500)
+    elif rp["case"].get("stream") in ("position", "substitution"):
+        pcases = [dict(rp["case"])]
+    pouts, pcodes, pfails = c08pos.evaluate(vh, pcases) if pcases else ({}, {}, [])
+    for f in pfails:
+        run.corr_breaks.append({"what": "reference interpreter could not be evaluated (Check/C08Check.v)", "log": f})
+    phist, lhist, khist, reproduced, p_agree = {}, {}, {}, set(), 0
+    for c in pcases:
+        a, b = pouts.get(2 * c["id"]) or {"st": "missing"}, pouts.get(2 * c["id"] + 1) or {"st": "missing"}
+        code = pcodes.get(c["id"])
+        phist[str(code)] = phist.get(str(code), 0) + 1
+        khist[c["stream"] + ":" + c["kind"]] = khist.get(c["stream"] + ":" + c["kind"], 0) + 1
+        for l in c["layers"]:
+            lhist[l] = lhist.get(l, 0) + 1
+        sig = c08pos.signature(c)
+        rec = {"case": {k: c.get(k) for k in ("stream", "kind", "layers", "src1", "src2", "coq1", "coq2", "alt", "ast1", "ast2")},
+               "observed": {"original": {k: a.get(k) for k in ("st", "repr", "msg", "site")}, "rewritten": {k: b.get(k) for k in ("st", "repr", "msg", "site")}}}
+        fa, fb = a.get("st") != "ok", b.get("st") != "ok"
+        failed = False
+        if fa != fb:
+            rec["oracle"] = "the rewrite (%s, %s) changes whether the program fails" % (c["stream"], c["kind"])
+            failed = True
+        elif not fa and "f" not in a["val"] and "f" not in b["val"] and canon(a["val"]) != canon(b["val"]):
+            rec["oracle"] = "the rewrite (%s, %s) changes the value" % (c["stream"], c["kind"])
+            failed = True
+        if failed:
+            if sig and run.finding_for(sig):
+                reproduced.add(sig)
+            run.classify_failure(sig, rec)
+            continue
+        if not fa:
+            p_agree += 1
+        if code is None:
+            continue
+        c1, c2, m1, m2 = c08pos.split_code(code)
+        if m1 == 1:
+            run.corr_breaks.append({"what": "the reference interpreter gives the original and the rewritten program different answers (theorems C08_rewrites_apply_at_every_position / the model of subst, or the generator's rewriting)", **rec})
+        if m2 == 1:
+            run.corr_breaks.append({"what": "the generator's substitution and Eval/Rewrite.v subst give programs with different answers", **rec})
+        for side, cc in (("original", c1), ("rewritten", c2)):
+            base, region = cc % 100, cc // 100
+            if base in (0, 9) or region:
+                continue
+            if sig and run.finding_for(sig):
+                reproduced.add(sig)
+                run.known_hits.setdefault(run.finding_for(sig)["id"], rec)
+            else:
+                r2 = dict(rec)
+                r2["oracle"] = "%s program vs the reference semantics: %s" % (side, evalcheck.CODE_TEXT.get(base, str(base)))
+                if base in (1, 2, 3):
+                    run.classify_failure(sig, r2)
+                else:
+                    run.corr_breaks.append({"what": "implementation and reference interpreter disagree outside the property's own oracle", **r2})
+    if not replay:
+        # the committed witnesses of the open findings must still fail
+        wreqs, wsigs = [], sorted(c08pos.WITNESSES)
+        for i, sg in enumerate(wsigs):
+            wreqs += [{"id": 2 * i, "src": c08pos.WITNESSES[sg][0], "budget_ms": 6000}, {"id": 2 * i + 1, "src": c08pos.WITNESSES[sg][1], "budget_ms": 6000}]
+        wouts, _, _ = run_harness(vh, "eval", wreqs, stall=12)
+        for i, sg in enumerate(wsigs):
+            a, b = wouts.get(2 * i) or {"st": "missing"}, wouts.get(2 * i + 1) or {"st": "missing"}
+            differs = (a.get("st") != "ok") != (b.get("st") != "ok") or (a.get("st") == "ok" and canon(a["val"]) != canon(b["val"]))
+            rec = {"case": {"stream": "witness", "kind": sg, "original": c08pos.WITNESSES[sg][0], "rewritten": c08pos.WITNESSES[sg][1]},
+                   "observed": {"original": {k: a.get(k) for k in ("st", "repr", "msg", "site")}, "rewritten": {k: b.get(k) for k in ("st", "repr", "msg", "site")}},
+                   "oracle": "replacing the let-bound name by its value changes the result"}
+            if differs:
+                run.classify_failure(sg, rec)
+            elif run.finding_for(sg):
+                run.corr_breaks.append({"what": "open finding %s (%s) no longer reproduces on its witness" % (run.finding_for(sg)["id"], sg), **rec})
     step = max(1, len(pairs) // 6)
-    run.cov.update({"evaluations": len(reqs) + len(mcases), "distinct_nontrivial": agree_val,
+    pstep = max(1, len(pcases) // 6)
+    run.cov.update({"position_and_substitution": {
+        "cases": len(pcases), "both_sides_agree_on_the_implementation": p_agree, "verdict_code_histogram": phist,
+        "rewrite_histogram": khist, "context_layer_histogram": lhist,
+        "layers_between_root_and_rewrite_histogram": {str(k): sum(1 for c in pcases if c["stream"] == "position" and len(c["layers"]) == k) for k in sorted({len(c["layers"]) for c in pcases if c["stream"] == "position"})},
+        "rule": "(i) a documented equivalence (let/->/call forms, array and dict sugar vs spelled-out set, an operand hidden behind && / || / cond, each in both directions) applied 3-6 forms deep inside a larger program built from 50 context layers (every operand position of the operators, literals, calls, ?:, dot, let, ->, &&, ||, cond arms and defaults, where / => / >> / >>> / rank function bodies, let and function binders that bind names the redex uses, and the (expr) literals, fallbacks and dict keys inside array / tuple / dict / set patterns); the position is emitted as a one-hole context of Eval/Rewrite.v and the reference interpreter runs `plug C e` and `plug C e'`; an enumerated core puts every layer innermost and outermost under every rewrite kind. (ii) `let x = v; body` against body with the free x replaced by v, where body rebinds x by let, \\x, ->, =>, >>, where, cond patterns, array / tuple / dict / set patterns and reads the outer x in pattern literals, fallbacks and dict keys (15 enumerated shapes x 3 + random bodies); the interpreter also runs its own `subst x v body`. Compared: implementation(original) = implementation(rewritten) (the property), each against the interpreter, and interpreter(original) = interpreter(rewritten) = interpreter(subst)",
+        "samples": [{"kind": c["stream"] + ":" + c["kind"], "original": c["src1"][:200], "rewritten": c["src2"][:240]} for c in pcases[::pstep]][:6]}})
+    run.cov.update({"evaluations": len(reqs) + len(mcases) + 2 * len(pcases), "distinct_nontrivial": agree_val + p_agree,
                     "rule": "programs from the C01/C04/C05/C09 generators, each rewritten at a random position by one documented equivalence: let-introduction of a closed sub-expression (`let t = s; e[t/s]`), the same as `s -> \\\\t e` and `(\\\\t e)(s)`, sugar literal -> spelled-out set of tuples, implicit \\\\. binder -> explicit \\\\z, a failing operand hidden behind &&, || or cond, redundant parentheses, comments and whitespace; plus two dedicated streams: a sugar literal with constant cells (folded at compile time) against the same literal with one or two cells bound by let / -> / call (sets, arrays with holes and offsets, dicts, tuples, relation literals incl. the headings |@,@value|, |@,@item|, |@,x| with repeated keys, nested), literal forms at text level (byte arrays with string items, templates, offsets, dict/relation sugar) with a constant cell incl. non-ASCII strings against the let / -> / call form, && / || with a literal operand against the parenthesised or let-bound operand, cond with the default arm first or in the middle followed by failing or true conditions, and an unparenthesised arithmetic chain of 3-5 operands over + - * / % ^ (literals and let-bound names) against the grouping implied by the documented precedence and right-associative ^; original and rewritten source both evaluated by syntax.EvaluateExpr: equal canonical values or both fail; non-trivial = pairs where both evaluate to equal values",
                     "samples": [{"kind": p[0], "original": p[1][:160], "rewritten": p[2][:220]} for p in pairs[::step]][:6],
                     "rewrite_histogram": kinds, "pairs": len(pairs), "exhaustive": False})
